@@ -672,7 +672,7 @@ pub fn exec_history(r: &mut Report, rng: &mut Rng, idx: u64, mut w: CmdWorld, p:
 
 pub fn run(r: &mut Report) {
     let (shard, nshards) = shard();
-    let n = if r.thorough() { 2400 } else { 240 } / nshards;
+    let n = if r.thorough() { 6400 } else { 640 } / nshards;
     let mut rng = Rng::new(r.seed.wrapping_add(shard.wrapping_mul(15485863)) ^ 0xC0FFEE);
     let only: Option<u64> = std::env::var("VERIF_ONLY_CMD").ok().and_then(|s| s.parse().ok());
     let base = r.evaluations;
